@@ -63,7 +63,7 @@ def skeleton_template(name, lvl, v, child, vi=0):
         t["tops"].append(("i", ("s", "|")))
         if b:
             # overrides read the loop variable and loop.index of a loop that only the ancestor's template contains
-            body = {1: [("s", "B" + L), ("v", "loop.index")], 2: [("u", 0), ("s", "B" + L), ("v", "i")],
+            body = {1: [("s", "B" + L), ("v", "loop.index"), ("v", "lazy")], 2: [("u", 0), ("s", "B" + L), ("v", "i")],
                     3: [("s", "B" + L), ("u", 1)]}[b]
             t["blocks"]["b2"] = (False, False, body)
             t["tops"].append(("i", ("b", "b2")))
@@ -72,7 +72,7 @@ def skeleton_template(name, lvl, v, child, vi=0):
         t["blocks"]["b2"] = (False, False, [("s", "n" + L), ("u", 0)])
         t["tops"].append(("i", ("b", "b1")))
     else:
-        t["blocks"]["b2"] = (v[0] == "loop", False, [("v", "i")] + ([("v", "loop.index")] if lvl % 2 else []) + [("s", "l" + L)]
+        t["blocks"]["b2"] = (v[0] == "loop", False, [("v", "i"), ("v", "lazy")] + ([("v", "loop.index")] if lvl % 2 else []) + [("s", "l" + L)]
                              + ([("u", 0)] if child else []))
         # the block site sits directly in the loop body or below an if / with statement
         ws = [None] + G.WRAPS + ([] if child else ["setblock"])
@@ -159,22 +159,24 @@ def show(r):
     return r
 
 
+def env_kind(idx, env):
+    if isinstance(env, dict):
+        # skeleton: one shared environment per configuration; every 9th chain goes through another axis
+        return G.ENV_KINDS[(idx // 9) % len(G.ENV_KINDS)] if idx % 9 == 4 else "plain"
+    if env is None and idx % 4 == 1:
+        return G.ENV_KINDS[(idx // 4) % len(G.ENV_KINDS)]
+    return "plain"
+
+
 def run_batch(ctx, jinja2, hs, env=None, blocks_every=3):
-    lines = [G.model_line(h, FUEL) for h in hs]
+    lines = [G.model_line(h, FUEL, G.CUSTOM_EXTRA if env_kind(i, env) == "custom" else None) for i, h in enumerate(hs)]
     out = ctx.driver("inh", lines)
     for idx, (h, line, ml) in enumerate(zip(hs, lines, out)):
         srcs = G.sources(h) if env is None else dict({n: env["plain"].loader.mapping[n] for n in h["chain"]},
                                                      **G.aux_templates(h))
         full = len(h["chain"]) == len([1 for n in h["chain"]])  # chain handed to the model is the effective one
-        kind = "plain"
-        if isinstance(env, dict):
-            # skeleton: one shared environment per configuration; every 9th chain goes through another axis
-            kind = G.ENV_KINDS[(idx // 9) % len(G.ENV_KINDS)] if idx % 9 == 4 else "plain"
-            e = env[kind]
-        else:
-            e = env
-            if e is None and idx % 4 == 1:
-                kind = G.ENV_KINDS[(idx // 4) % len(G.ENV_KINDS)]
+        kind = env_kind(idx, env)
+        e = env[kind] if isinstance(env, dict) else env
         wb = (idx % blocks_every == 0) and kind == "plain"
         real, rb = G.real_render(jinja2, h, want_blocks=wb, srcs=srcs if e is None else None, env=e, kind=kind,
                                  history=(e is None and idx % 3 == 2))
@@ -273,6 +275,8 @@ def run(ctx):
     hs = [g.hierarchy() for _ in range(ctx.size(1800, 40000))]
     run_batch(ctx, jinja2, hs, blocks_every=3)
 
+    self_attribute_probe(ctx, jinja2)
+
     # ---------------- hypothesis probe: duplicate block names
     for n in range(ctx.size(20, 200)):
         h = g.hierarchy()
@@ -297,12 +301,41 @@ def run(ctx):
             ctx.reject({"source": src}, f"duplicate block raised {type(e).__name__} instead of TemplateSyntaxError", None)
 
 
+def self_attribute_probe(ctx, jinja2):
+    """hypothesis of the model's `self.b()`: the block name is not an attribute of the TemplateReference object.  The
+    recorded finding C04-self-block-name-is-object-attribute is re-observed here on every run; ordinary names that
+    merely look unusual must work"""
+    for name, known in (("__repr__", True), ("_TemplateReference__context", True), ("__init__", True), ("__class__", True),
+                        ("_x", False), ("__x", False), ("x__", False), ("__getitem", False)):
+        src = "{%% block %s %%}X{%% endblock %%}|{{ self.%s() }}" % (name, name)
+        ctx.case()
+        ctx.count("probe-self-attribute-name")
+        try:
+            got = jinja2.Environment().from_string(src).render()
+        except Exception as e:  # noqa
+            got = "X:" + type(e).__name__
+        if got != "X|X":
+            ctx.reject({"source": src, "block": name}, f"self.{name}() gives {got!r}, the most-derived definition renders 'X'",
+                       "C04:self-block-name-is-attribute-of-TemplateReference" if known else None)
+        else:
+            ctx.validated()
+
+
 def replay(ctx, data):
     jinja2 = lib.use_repo_jinja()
     case = data.get("case")
     if data.get("kind") != "failing-input" or case is None:
         print("replay: this file names a broken theorem/correspondence, not an input:", data.get("broken"))
         return run(ctx)
+    if "block" in case:
+        try:
+            got = jinja2.Environment().from_string(case["source"]).render()
+        except Exception as e:  # noqa
+            got = "X:" + type(e).__name__
+        print("renders:", got)
+        if got != "X|X":
+            ctx.reject(case, f"self.{case['block']}() gives {got!r}", data.get("signature"))
+        return
     if "model_line" not in case:
         try:
             jinja2.Environment().from_string(case["source"])
